@@ -179,6 +179,53 @@ HugeInAt(j) ==
       c0 == Form(f, PlainAcct(Mn2), ch, <<80, j>>)
   IN  CItem("huge_input", [c0 EXCEPT !.inp = [hex |-> "", rl |-> [pre |-> <<104, 105>>, pat |-> <<(j * 37) % 256>>, rep |-> sz - 2, tail |-> <<>>]]])
 
+\* ---- K: spelling styles of the command line (Args.tla): the meaning, hence the result, is the same in every style -------
+\* style number k in 0..39: option spelling x reversed account options x inner options after the positional x "--"
+StyleAt(k) == [opt |-> Styles[1 + (k % 5)], rev |-> (k \div 5) % 2 = 1, late |-> (k \div 10) % 2 = 1, dd |-> (k \div 20) % 2 = 1]
+NStyles == IF Thorough THEN 13 * 40 * 3 ELSE 13 * 20
+StyleItemAt(j) ==
+  LET r    == <<81, j>>
+      f    == 1 + (j % 13)
+      k    == IF Thorough THEN (j \div 13) % 40 ELSE ((j \div 13) * 7 + f) % 40
+      mn   == Mnemonics[1 + PrngNat(K("kmn", r), 3)]
+      pw   == <<"", "TREZOR", "pass word", "a=b", "=x", "-">>[1 + PrngNat(K("kpw", r), 6)]
+      sel  == Selectors[1 + PrngNat(K("ksel", r), Len(Selectors))]
+      acct == AcctOf(mn, Src(PrngNat(K("k1", r), 4) \div 3), pw, IF pw = "" /\ PrngNat(K("k2", r), 2) = 0 THEN "none" ELSE Src(PrngNat(K("k3", r), 3) \div 2),
+                     sel, Src(PrngNat(K("k4", r), 3) \div 2))
+      c0   == Form(f, acct, ChanNo(PrngNat(K("k5", r), 4)), r)
+      c1   == IF f = 10 /\ j % 2 = 0 THEN [c0 EXCEPT !.sigtext = "0x" \o BytesToHex(Prng(K("ksg", r), 31) \o <<1>> \o Prng(K("ksh", r), 31) \o <<1, 27 + (j % 2)>>)] ELSE c0
+  IN  CItem("arg_styles", c1 @@ [style |-> StyleAt(k)])
+
+\* ---- L: slips on the command line: a dropped / repeated token, an unknown option, a surplus argument, account options of
+\* `sign` after the inner subcommand - among them the two selectors split around it, which must be refused (C16) ---------
+SlipForms == <<1, 4, 5, 6, 7, 8, 10, 12, 13, 2>>
+FlagAcct(sel2) == [mnemonic |-> Opt("flag", Mn2), password |-> Opt("flag", "TREZOR"),
+                   index |-> IF sel2 \in {1, 3} THEN Opt("flag", "2") ELSE NoOpt,
+                   path |-> IF sel2 \in {2, 3} THEN Opt("flag", "m/44'/60'/0'/0/5") ELSE NoOpt]
+LateSets == << <<"path">>, <<"index">>, <<"index", "path">>, <<"path", "password">>, <<"index", "mnemonic">>, <<"password">>, <<"mnemonic">>,
+              <<"mnemonic", "password", "index", "path">> >>
+NSplit == 5 * Len(LateSets) * 2
+NSlips == (IF Thorough THEN 1200 ELSE 360) + NSplit
+SlipAt(j) ==
+  IF j <= NSplit THEN
+    \* both selectors as flags, some of the account options after the inner subcommand
+    LET q    == j - 1
+        late == LateSets[1 + (q % Len(LateSets))]
+        f    == <<4, 5, 6, 7, 8>>[1 + ((q \div Len(LateSets)) % 5)]
+        both == q \div (5 * Len(LateSets)) = 0
+        c0   == Form(f, FlagAcct(IF both THEN 3 ELSE 1 + (q % 2)), "file", <<82, j>>)
+    IN  CItem(IF both THEN "selectors_split_around_subcommand" ELSE "account_options_after_subcommand",
+              c0 @@ [style |-> StyleAt(q % 2), mut |-> [k |-> "acct_late", at |-> 0, late |-> late]])
+  ELSE
+    LET q   == j - NSplit
+        f   == SlipForms[1 + (q % Len(SlipForms))]
+        c0  == Form(f, FlagAcct((q \div 3) % 3), ChanNo(q), <<83, j>>) @@ [style |-> StyleAt(((q \div 7) % 5) + 10 * ((q \div 2) % 2))]
+        n   == Len(Argv0(c0))
+        kind == <<"drop", "dup", "unknown">>[1 + ((q \div Len(SlipForms)) % 3)]
+        at  == 2 + ((q \div (3 * Len(SlipForms))) % (n - 1))
+    IN  IF q % 29 = 0 THEN CItem("arg_slips", c0 @@ [mut |-> [k |-> "surplus", at |-> 0]])
+        ELSE CItem("arg_slips", c0 @@ [mut |-> [k |-> kind, at |-> at]])
+
 O1 == NSample
 O2 == O1 + NLattice
 O3 == O2 + 3 * NSessions
@@ -188,7 +235,9 @@ O6 == O5 + NZeroKey
 O7 == O6 + NChunked
 O8 == O7 + NMagicItems
 O9 == O8 + NNames
-Count == O9 + NHugeIn
+O10 == O9 + NHugeIn
+O11 == O10 + NStyles
+Count == O11 + NSlips
 ItemAt(g) ==
   IF g <= O1 THEN SampleAt(g)
   ELSE IF g <= O2 THEN LatticeAt(g - O1)
@@ -199,7 +248,9 @@ ItemAt(g) ==
   ELSE IF g <= O7 THEN ChunkedAt(g - O6)
   ELSE IF g <= O8 THEN MagicAt(g - O7)
   ELSE IF g <= O9 THEN NameAt(g - O8)
-  ELSE HugeInAt(g - O9)
+  ELSE IF g <= O10 THEN HugeInAt(g - O9)
+  ELSE IF g <= O11 THEN StyleItemAt(g - O10)
+  ELSE SlipAt(g - O11)
 Histories == 0
 VARIABLE n
 INSTANCE GenBase
